@@ -42,6 +42,17 @@ class Body:
                 at = b['stmts'][idx].get('at')
             else:
                 at = b['term'].get('at')
+                if at and (at.get('exp') or '/rustlib/' in at.get('file', '')) and b['term'].get('at_root'):
+                    at = b['term']['at_root']
+                if at and '/rustlib/' in at.get('file', ''):
+                    # expansion of a std macro: fall back to the nearest statement / the function itself
+                    for s in reversed(b['stmts']):
+                        a2 = s.get('at')
+                        if a2 and '/rustlib/' not in a2.get('file', ''):
+                            at = a2
+                            break
+                    else:
+                        at = None
             if at:
                 return '%s:%d' % (at['file'], at['line'])
         except Exception:
